@@ -151,6 +151,8 @@ def check_C01(ctx):
         _checked_history(ctx, h, rng.randint(10, 80))
         ctx.case(('history', k, len(h.s.lines)))
         h.finish(SECTIONS_L3, 'C01 history')
+    # 2b. results remembered across a collection for re-used node numbers
+    stale_cache_templates(ctx, 40 if ctx.tier == 'quick' else 400, 'C01')
     # 3. the `Function` operators of dd.autoref
     _function_operators(ctx)
 
@@ -545,6 +547,47 @@ def gc_oracle(ctx, h, after_gc=False):
     return bad
 
 
+def stale_cache_templates(ctx, n, label):
+    """warm cache -> drop -> gc -> re-create (node number re-used) -> re-ask the same integer triple"""
+    rng = ctx.rng
+    for k in range(n):
+        names = ['a', 'b', 'c', 'd'][:rng.randint(2, 4)]
+        h = History(ctx, names)
+        sp = Space(names)
+        s = h.s
+        va = [h.add(s.op(0, 'var', n_)) for n_ in names]
+        x = h.add(s.op(0, 'apply', rng.choice(['and', 'or', 'xor']), va[0], va[1]))
+        y = h.add(s.op(0, 'apply', rng.choice(['and', 'or', 'xor']), x, rng.choice(va)))
+        keep = rng.choice(va)
+        h.hold(keep)
+        if rng.random() < 0.5:
+            h.hold(y)                     # the result stays alive, the operand `x` does not
+        s.op(0, 'gc')                     # x (and perhaps y) freed; cache must be dropped
+        h.prune()
+        # re-create other functions that re-use the freed numbers, in another shape
+        va = [h.add(s.op(0, 'var', n_)) for n_ in reversed(names)]
+        x2 = h.add(s.op(0, 'apply', rng.choice(['or', 'xor', 'implies']), va[-1], -va[0]))
+        tt = TT(h.b, names)
+        for cn in ('and', 'or', 'xor'):
+            for u in (x2, -x2):
+                for v in va:
+                    if abs(u) in h.b._succ and abs(v) in h.b._succ:
+                        want = CONNECTIVES[cn](sp, tt.of(u), tt.of(v))
+                        r = h.add(s.op(0, 'apply', cn, u, v))
+                        ctx.evaluations += 1
+                        if r is None or TT(h.b, names).of(r) != want:
+                            ctx.violation('result remembered for a re-used node number', dict(
+                                lines=list(s.lines), tags=dict(call='stale-cache')))
+        if label == 'C06':
+            bad = gc_oracle(ctx, h)
+            if bad:
+                ctx.violation('counts wrong in stale-cache template', dict(
+                    problems=bad[:4], lines=list(s.lines), tags=dict(call='gc')))
+        ctx.case(('stale-cache', k, tuple(s.lines[-3:])))
+        h.finish(SECTIONS_L3, label + ' stale-cache')
+
+
+
 def check_C06(ctx):
     rng = ctx.rng
     # 1. exhaustive short sequences over a small alphabet on two variables
@@ -602,38 +645,7 @@ def check_C06(ctx):
             break
     ctx.count('short-sequences', count)
     # 2. stale-cache template: warm cache -> drop -> gc -> re-create (number re-used) -> re-ask
-    for k in range(30 if ctx.tier == 'quick' else 300):
-        names = ['a', 'b', 'c', 'd'][:rng.randint(2, 4)]
-        h = History(ctx, names)
-        sp = Space(names)
-        s = h.s
-        va = [h.add(s.op(0, 'var', n)) for n in names]
-        x = h.add(s.op(0, 'apply', rng.choice(['and', 'or', 'xor']), va[0], va[1]))
-        y = h.add(s.op(0, 'apply', rng.choice(['and', 'or', 'xor']), x, rng.choice(va)))
-        keep = rng.choice(va)
-        h.hold(keep)
-        s.op(0, 'gc')                     # x, y freed; cache must be dropped
-        h.prune()
-        # re-create other functions that re-use the freed numbers, in another shape
-        va = [h.add(s.op(0, 'var', n)) for n in reversed(names)]
-        x2 = h.add(s.op(0, 'apply', rng.choice(['or', 'xor', 'implies']), va[-1], -va[0]))
-        tt = TT(h.b, names)
-        for cn in ('and', 'or', 'xor'):
-            for u in (x2, -x2):
-                for v in va:
-                    if abs(u) in h.b._succ and abs(v) in h.b._succ:
-                        want = CONNECTIVES[cn](sp, tt.of(u), tt.of(v))
-                        r = h.add(s.op(0, 'apply', cn, u, v))
-                        ctx.evaluations += 1
-                        if r is None or TT(h.b, names).of(r) != want:
-                            ctx.violation('result remembered for a re-used node number', dict(
-                                lines=list(s.lines), tags=dict(call='stale-cache')))
-        bad = gc_oracle(ctx, h)
-        if bad:
-            ctx.violation('counts wrong in stale-cache template', dict(
-                problems=bad[:4], lines=list(s.lines), tags=dict(call='gc')))
-        ctx.case(('stale-cache', k, tuple(s.lines[-3:])))
-        h.finish(SECTIONS_L3, 'C06 stale-cache')
+    stale_cache_templates(ctx, 30 if ctx.tier == 'quick' else 300, 'C06')
     # 2b. every function of three variables (both signs) held through each adjacent swap,
     #     alone and together with a second held function: counts exact after the rooted collection
     sp3 = Space(ABC)
